@@ -679,6 +679,11 @@ func (b *bitstream) ReadTimestamp() (Timestamp, error) {
 		}
 	}
 
+	if precision == TimestampNoPrecision {
+		// The offset must be followed by at least the year.
+		return Timestamp{}, &SyntaxError{"invalid timestamp - year is required", b.pos}
+	}
+
 	nsecs := 0
 	overflow := false
 	fractionPrecision := uint8(0)
